@@ -14,9 +14,9 @@ QWalk == {<<2, {1, 2}>>, <<3, {1, 2, 3}>>, <<4, {}>>}
 TWalk == {<<2, {1, 2}>>, <<3, {1, 2, 3}>>, <<4, {1, 2}>>}
 QWalker == {<<2, {1, 2}>>, <<3, {1, 2, 3}>>}
 TWalker == {<<2, {1, 2}>>, <<3, {1, 2, 3}>>, <<4, {1}>>}
-(* <<n, sym>> : connected weighted graphs / strongly connected weighted digraphs     *)
-QLemma == {<<2, TRUE>>, <<3, TRUE>>, <<4, TRUE>>, <<3, FALSE>>}
-TLemma == {<<2, TRUE>>, <<3, TRUE>>, <<4, TRUE>>, <<5, TRUE>>, <<3, FALSE>>}
+(* <<n, sym, heavy>> : connected graphs / strongly connected digraphs, weights 1 (, 2)  *)
+QLemma == {<<2, TRUE, TRUE>>, <<3, TRUE, TRUE>>, <<4, TRUE, TRUE>>, <<3, FALSE, TRUE>>}
+TLemma == QLemma \cup {<<5, TRUE, FALSE>>, <<4, FALSE, FALSE>>}
 WalkMachines == {"findwalks", "walker"}
 LemmaMachines == {"lemma"}
 FwOnly == {"findwalks"}
